@@ -98,6 +98,49 @@ Theorem C05_unknown_variant_rejected : forall name ev sp tvars variants variant 
     <> Ok tt.
 Proof. exact ShapesDecl.unknown_variant_rejected. Qed.
 
+(* accessing a field the blob does not have *)
+Theorem C05_absent_field_access_rejected : forall name v sp tvars bfields fields self isp field asp,
+  ~ In field (map fst bfields) ->
+  forall pre mid post dname dvar dkind dty (C : ectx) dsp sp0 fuel vars,
+    let e := EBlobAccess (EBlob v fields self isp) field asp in
+    typecheck fuel (mkResolved vars
+      (pre ++ SBlob name v sp tvars bfields false :: mid ++
+       SDefinition dname dvar dkind dty (plug_e e (SStatementExpression e sp0) C) dsp :: post))
+    <> Ok tt.
+Proof. exact ShapesDecl.absent_field_access_rejected. Qed.
+
+(* more generally: on any expression whose value the checker knows to be that blob *)
+Theorem C05_absent_field_rejected : forall kinds g K value field sp f ctx s,
+  wf s ->
+  (forall f' ctx' s0 r s1, ext s s0 -> wf s0 -> r_expr (afix kinds (gfix g) f') value ctx' s0 = Ok (r, s1) -> blob_head K s1 (snd r)) ->
+  ~ In field K ->
+  notok (r_expr (afix kinds (gfix g) f) (EBlobAccess value field sp) ctx s).
+Proof. exact ShapesDecl.absent_field_rejected. Qed.
+
+(* matching a variant that does not exist *)
+Theorem C05_case_unknown_variant_rejected :
+  forall name ev sp tvars variants var0 value vsp pre0 pat psp bvar body bsp post0 fall csp,
+  ~ In pat (map fst variants) ->
+  forall pre mid post dname dvar dkind dty (C : ectx) dsp sp0 fuel vars,
+    let e := ECase (EVariant ev var0 value vsp) (pre0 ++ CaseBranch pat psp bvar body bsp :: post0) fall csp in
+    typecheck fuel (mkResolved vars
+      (pre ++ SEnum name ev sp tvars variants :: mid ++
+       SDefinition dname dvar dkind dty (plug_e e (SStatementExpression e sp0) C) dsp :: post))
+    <> Ok tt.
+Proof. exact ShapesDecl.case_unknown_variant_rejected. Qed.
+
+(* a `case` without `else` that does not list every variant of the enum (arms naming variants that do not
+   exist are covered by the theorem above: together, the arm set must be exactly the variant set) *)
+Theorem C05_case_not_total_rejected : forall name ev sp tvars variants var0 value vsp branches csp k0,
+  In k0 (map fst variants) -> ~ In k0 (map branch_pattern branches) ->
+  forall pre mid post dname dvar dkind dty (C : ectx) dsp sp0 fuel vars,
+    let e := ECase (EVariant ev var0 value vsp) branches None csp in
+    typecheck fuel (mkResolved vars
+      (pre ++ SEnum name ev sp tvars variants :: mid ++
+       SDefinition dname dvar dkind dty (plug_e e (SStatementExpression e sp0) C) dsp :: post))
+    <> Ok tt.
+Proof. exact ShapesDecl.case_not_total_rejected_prog. Qed.
+
 (* indexing a tuple outside its length; comparing tuples of different lengths *)
 Theorem C05_tuple_index_out_of_range_rejected : forall values sp1 i sp2 sp,
   (i < 0 \/ Z.of_nat (length values) <= i)%Z ->
@@ -185,3 +228,7 @@ Print Assumptions C05_unknown_variant_rejected.
 Print Assumptions C05_tuple_index_out_of_range_rejected.
 Print Assumptions C05_tuple_length_mismatch_rejected.
 Print Assumptions C05_copy_shape.
+Print Assumptions C05_absent_field_access_rejected.
+Print Assumptions C05_absent_field_rejected.
+Print Assumptions C05_case_unknown_variant_rejected.
+Print Assumptions C05_case_not_total_rejected.
